@@ -681,6 +681,14 @@ fn drive_forms(o: &mut Out, seed: u64) {
     luma_forms!(pe::Srgb, pe::Srgb, "Srgb", f32, u8);
     luma_forms!(pe::Srgb, pe::Srgb, "Srgb", f64, u8);
     luma_forms!(pe::Rec2020, pe::RecOetf, "Rec2020", f32, u8);
+    luma_forms!(pe::Rec2020, pe::RecOetf, "Rec2020", f64, u8);
+    luma_forms!(pe::Rec709, pe::RecOetf, "Rec709", f32, u8);
+    luma_forms!(pe::Rec709, pe::RecOetf, "Rec709", f64, u8);
+    luma_forms!(pe::DisplayP3, pe::Srgb, "DisplayP3", f32, u8);
+    luma_forms!(pe::DisplayP3, pe::Srgb, "DisplayP3", f64, u8);
+    luma_forms!(pe::AdobeRgb, pe::AdobeRgb, "AdobeRgb", f32, u8);
+    luma_forms!(pe::DciP3, pe::P3Gamma, "DciP3", f64, u8);
+    luma_forms!(pe::ProPhotoRgb, pe::ProPhotoRgb, "ProPhotoRgb", f64, u16);
     luma_forms!(pe::AdobeRgb, pe::AdobeRgb, "AdobeRgb", f64, u8);
     luma_forms!(pe::DciP3, pe::P3Gamma, "DciP3", f32, u8);
     luma_forms!(pe::ProPhotoRgb, pe::ProPhotoRgb, "ProPhotoRgb", f32, u16);
